@@ -63,6 +63,7 @@ class Run:
         self.exhaustive = None
         self.tlc_runs = []
         self._viol_printed = 0
+        self._case_sets = {}
         import glob
         for f in glob.glob(os.path.join(REPLAYS, pid, f'{tier}-*.json')):      # replay files of earlier runs of this tier
             try:
@@ -86,22 +87,33 @@ class Run:
         self.extra[key] = value
 
     # ---- verdicts ----------------------------------------------------------------------
-    def match_known(self, classes, symptom):
-        """An open finding matches when the case belongs to the finding's input class AND shows its symptom."""
+    def match_known(self, classes, symptom, case_key=None):
+        """An open finding matches when the case belongs to the finding's input class AND shows its symptom.  A finding
+        with scope "cases" (classes in which only SOME inputs fail) additionally lists the failing cases of the fixed explored
+        corpus one by one: only those match, so that a different failure in the same class is still reported."""
         for k in self.known:
-            if k['class'] in classes and k['symptom'] == symptom:
+            kcl = set(k.get('classes') or [k['class']])
+            if kcl & set(classes) and k['symptom'] == symptom:
+                if k.get('scope') == 'cases':
+                    if case_key is not None and case_key in self._case_sets.setdefault(id(k), set(k.get('cases', []))):
+                        return k
+                    continue
                 return k
         return None
 
-    def violation(self, case: dict, what: str, classes=(), symptom=None):
+    def violation(self, case: dict, what: str, classes=(), symptom=None, case_key=None):
         """Report a mismatch.  `classes`: input classes the failing case belongs to (computed from the
         generator's description, never from the failure).  Returns True if it is a listed known finding."""
-        k = self.match_known(set(classes), symptom) if symptom else None
+        if os.environ.get('VERIF_LIST_CASES') and case_key is not None and symptom:
+            for k0 in self.known:
+                if k0.get('scope') == 'cases' and (set(k0.get('classes') or [k0['class']]) & set(classes)) and k0['symptom'] == symptom:
+                    print(f'CASE-KEY\t{self.pid}\t{symptom}\t{case_key}')
+        k = self.match_known(set(classes), symptom, case_key) if symptom else None
         if k is not None:
-            key = (k['class'], k['symptom'])
+            key = (k.get('class') or '+'.join(k.get('classes', [])), k['symptom'])
             if key not in self.known_seen:
                 ex = case.get('text') or case.get('input') or k.get('example')
-                print(f"KNOWN-FINDING: property={self.pid} {k['class']}: {k['symptom']} ({k.get('defect','')}) e.g. {json.dumps(ex, ensure_ascii=False)[:160]}")
+                print(f"KNOWN-FINDING: property={self.pid} {key[0]}: {k['symptom']} ({k.get('defect','')}) e.g. {json.dumps(ex, ensure_ascii=False)[:160]}")
             self.known_seen[key] = self.known_seen.get(key, 0) + 1
             return True
         self.violations += 1
@@ -125,10 +137,10 @@ class Run:
         for k, v in sorted(self.extra.pop('_dbg', {}).items()):
             print('DEBUG-VIOLATION-CLASS', v, k)
         for k in self.known:
-            if (k['class'], k['symptom']) not in self.known_seen and k.get('expect_in', self.tier) in (self.tier, 'both') \
-                    and k.get('explored_by_check', True):
-                if self.extra.get('explored_classes') and k['class'] in self.extra['explored_classes']:
-                    print(f"KNOWN-FINDING-NOT-REPRODUCED: property={self.pid} {k['class']}: {k['symptom']} (informational)")
+            kname = k.get('class') or '+'.join(k.get('classes', []))
+            if (kname, k['symptom']) not in self.known_seen:
+                if self.extra.get('explored_classes') and (set(k.get('classes') or [k['class']]) & set(self.extra['explored_classes'])):
+                    print(f"KNOWN-FINDING-NOT-REPRODUCED: property={self.pid} {kname}: {k['symptom']} (informational)")
         cov = {
             'states': self.states, 'transitions': self.transitions,
             'traces_validated_against_impl': self.traces,
